@@ -1225,9 +1225,9 @@ func (s *Service) processRequest(m *nats.Msg, rtype, rname, method string, mh *M
 
 func (s *Service) queryEventExpire(v interface{}) {
 	qe := v.(*queryEvent)
-	simYield("queryEventExpire", qe.r.rname)
+	simYield("queryEventExpire", qe.r.rname+" "+qe.sub.Subject)
 	qe.sub.Drain()
-	simYield("queryEventExpire.afterDrain", qe.r.rname)
+	simYield("queryEventExpire.afterDrain", qe.r.rname+" "+qe.sub.Subject)
 	// The query listener makes the last call to the callback, and exits
 	close(qe.done)
 }
